@@ -20,7 +20,8 @@ RULE = ("A strictly convex model over x, y, v[0..1] is drawn with 1-4 of its num
         "observation the result must equal the same observation on a FRESHLY built model in which each parameter "
         "is a Constant holding its current value (and, for values and first derivatives, an independent float/jet "
         "interpreter).  Non-trivial = a set that changes a value is followed by an observation through something "
-        "created or cached before that set (kept handle or second solve of the same Problem).")
+        "created or cached before that set (kept handle or second solve of the same Problem)."
+        "  Also: warm-started re-solves (x0 = previous solution), create-update-use episodes, a parameter next to a literal constant ((k+0.5)-0.5, (s1*2)/2), lowered switch thresholds, and an array-valued Parameter (set must take effect and must not write through to the caller's arrays).")
 BUDGET = {"quick": {"workers": 16, "examples": 60}, "thorough": {"workers": 16, "examples": 1500}}
 ASSUMPTIONS = ["solver comparisons use the accuracy the solvers deliver on these models (1e-5 SLSQP/L-BFGS-B, 1e-3 trust-constr/auto); "
                "parameter values are chosen so that a stale value moves the optimum by orders of magnitude more"]
